@@ -3,6 +3,7 @@
 //! usage: vx --repo /repo --verif /verif --unit contracts/um.vc --variant conc --out gen/um.conc.rs
 //! exit codes: 0 ok, 2 lost anchor / unsupported construct / parse error (never an alarm)
 mod elab;
+mod inline;
 mod emit;
 mod spec;
 mod ty;
@@ -11,7 +12,6 @@ use elab::{Elab, Env, Raii, RaiiKind, Tables};
 use quote::ToTokens;
 use spec::{FnSpec, Unit};
 use std::collections::{BTreeMap, BTreeSet};
-use syn::fold::Fold;
 use syn::visit_mut::VisitMut;
 use syn::*;
 
@@ -400,9 +400,71 @@ fn main() {
         struct_items.push((st.clone(), ss));
     }
     let mut found_fns: Vec<(FoundFn, &FnSpec)> = vec![];
+    // names that already mean something in this unit (functions under contract, functions of the models and of the overlay's
+    // own text): a call to one of these is never inlined
+    let mut known_names: BTreeSet<String> = BTreeSet::new();
+    {
+        let mut texts = vec![text.clone()];
+        for inc in u.includes.iter() {
+            let p = if inc.starts_with('/') { inc.clone() } else { format!("{}/{}", verif, inc) };
+            if let Ok(t) = std::fs::read_to_string(&p) {
+                texts.push(t);
+            }
+        }
+        for tx in texts.iter() {
+            let mut rest = tx.as_str();
+            while let Some(pos) = rest.find("fn ") {
+                let before_ok = pos == 0 || !rest.as_bytes()[pos - 1].is_ascii_alphanumeric() && rest.as_bytes()[pos - 1] != b'_';
+                let tail = &rest[pos + 3..];
+                let name: String = tail.chars().take_while(|c| c.is_alphanumeric() || *c == '_').collect();
+                if before_ok && !name.is_empty() {
+                    known_names.insert(name);
+                }
+                rest = tail;
+            }
+        }
+        for fs in u.fns.iter() {
+            known_names.insert(fs.path.rsplit("::").next().unwrap().to_string());
+        }
+        // every word of the overlay (directives such as `upgradelike Object::pool`, `extasync f`, `ctxfns f` name functions)
+        for w in text.split(|c: char| !(c.is_alphanumeric() || c == '_')) {
+            if !w.is_empty() {
+                known_names.insert(w.to_string());
+            }
+        }
+    }
+    // the same for calls whose receiver type is known: `Type::name` of every function under contract, plus every word of the
+    // unit-level directive lines (not of the contracts' clauses)
+    let mut known_typed: BTreeSet<String> = BTreeSet::new();
+    for fs in u.fns.iter() {
+        let parts: Vec<&str> = fs.path.split("::").collect();
+        if parts.len() >= 2 {
+            known_typed.insert(format!("{}::{}", parts[0].trim_start_matches('[').trim_end_matches(']').rsplit(';').next().unwrap(), parts[parts.len() - 1]));
+        }
+    }
+    let mut directive_words: BTreeSet<String> = BTreeSet::new();
+    for line in text.lines() {
+        if line.starts_with(|c: char| c.is_alphabetic()) && !line.starts_with("fn ") && !line.starts_with("struct ") && !line.starts_with("enum ") {
+            for w in line.split(|c: char| !(c.is_alphanumeric() || c == '_')) {
+                if !w.is_empty() {
+                    directive_words.insert(w.to_string());
+                }
+            }
+        }
+    }
     for fs in u.fns.iter() {
         let file = files.get(&fs.src).unwrap_or_else(|| die(&format!("unknown source alias {}", fs.src)));
         let mut ff = find_fn(file, &fs.path).unwrap_or_else(|| die(&format!("lost anchor: fn {}::{} not found", fs.src, fs.path)));
+        // helper inlining: a call `self.h(..)` / `Self::h(..)` / `h(..)` to a function of the same file that nothing in this unit
+        // knows (a helper introduced by an extract-method refactoring) is replaced by the helper's body
+        DesugarLetElse.visit_block_mut(&mut ff.block);
+        {
+            let mut inl = inline::Inliner { file, known: &known_names, known_typed: &known_typed, directive_words: &directive_words, field_types: &t.field_types, impl_ty: ff.impl_ty.clone(), depth: 0, counter: 0, notes: vec![] };
+            inl.visit_block_mut(&mut ff.block);
+            for n in inl.notes.iter() {
+                eprintln!("vx: note: {}::{}: {}", fs.src, fs.path, n);
+            }
+        }
         if let Some(k) = fs.closure {
             // lambda lifting: the k-th closure literal of the function (source order) becomes a function of its own; the
             // overlay supplies the signature (the captured variables become parameters)
@@ -565,6 +627,7 @@ fn main() {
             impl_ty: ff.impl_ty.clone(),
             pool,
             ctl: is_async,
+            ret_option: matches!(&ff.sig.output, ReturnType::Type(_, t) if type_last_ident(t).as_deref() == Some("Option")),
             env: Env::default(),
             counters: BTreeMap::new(),
             loop_ctr: 0,
@@ -579,6 +642,7 @@ fn main() {
             errors: vec![],
             pending_locks: vec![],
             pending_raii: vec![],
+            block_moved: None,
             brk_stack: vec![],
             self_rename: None,
             backparam: backparam.clone(),
@@ -820,6 +884,10 @@ fn main() {
     }
 }
 
+pub fn type_last_ident_pub(t: &Type) -> Option<String> {
+    type_last_ident(t)
+}
+
 pub fn attrs_cfg_pub(attrs: &[Attribute]) -> bool {
     attrs_cfg(attrs).unwrap_or(true)
 }
@@ -914,3 +982,30 @@ impl VisitMut for RenameIdent {
         }
     }
 }
+
+
+/// `let PAT = E else { D }; REST`  =>  `if let PAT = E { REST } else { D }` (the rest of the block moves into the `if let`;
+/// D diverges, so values and types are unchanged). All the extractor's `if let` rules then apply to `let .. else` as well.
+pub struct DesugarLetElse;
+impl VisitMut for DesugarLetElse {
+    fn visit_block_mut(&mut self, b: &mut Block) {
+        let pos = b.stmts.iter().position(|s| matches!(s, Stmt::Local(l) if l.init.as_ref().map(|i| i.diverge.is_some()).unwrap_or(false)));
+        if let Some(i) = pos {
+            let rest: Vec<Stmt> = b.stmts.split_off(i + 1);
+            let l = match b.stmts.pop() {
+                Some(Stmt::Local(l)) => l,
+                _ => unreachable!(),
+            };
+            let init = l.init.unwrap();
+            let pat = l.pat;
+            let e = init.expr;
+            let (_, d) = init.diverge.unwrap();
+            let has_tail = matches!(rest.last(), Some(Stmt::Expr(_, None)));
+            let ife: Expr = parse_quote!(if let #pat = #e { #(#rest)* } else #d);
+            b.stmts.push(Stmt::Expr(ife, if has_tail { None } else { Some(Default::default()) }));
+        }
+        syn::visit_mut::visit_block_mut(self, b);
+    }
+}
+
+
